@@ -41,7 +41,7 @@ EDIT_NAMES = [
 
 
 def plan(tier, seed):
-    n = 1920 if tier == "quick" else 24000
+    n = 1920 if tier == "quick" else 96000
     return [{"name": "edit%02d" % i, "spec": {"n": n // NSH}} for i in range(NSH)]
 
 
